@@ -296,6 +296,10 @@ def run_supervised(binary, test, env, scratch, tag, total, prop, timeout=3000, m
             log(p.stdout[-3000:])
             raise Inconclusive("driver %s died before its first case (exit %d)" % (test, p.returncode))
         idx, what = open(progress).read().split("\t", 1)
+        if "VERIF-WATCHDOG" in p.stdout:
+            # the driver's real-time watchdog ended a case that never came to rest; it has logged what it saw durably
+            start = int(idx) + 1
+            continue
         msg, site = _panic_site(p.stdout)
         rp = os.path.join(scratch, "replays")
         os.makedirs(rp, exist_ok=True)
